@@ -428,12 +428,14 @@ ebpps_sketch<T,A> ebpps_sketch<T,A>::deserialize(const void* bytes, size_t size,
   ptr += copy_from_mem(ptr, wt_max);
   double rho;
   ptr += copy_from_mem(ptr, rho);
+  check_state(cumulative_wt, wt_max, rho);
 
   auto pair = ebpps_sample<T, A>::deserialize(ptr, end_ptr - ptr, sd, allocator);
   ebpps_sample<T, A> sample = pair.first;
   ptr += pair.second;
 
-  if (sample.has_partial_item() != bool(flags & HAS_PARTIAL_ITEM_MASK))
+  // floor(c) full items are held, never more than k (c itself may exceed k by a rounding error)
+  if (sample.has_partial_item() != bool(flags & HAS_PARTIAL_ITEM_MASK) || !(sample.get_c() < k + 1.0))
     throw std::runtime_error("sketch fails internal consistency check");
 
   return ebpps_sketch(k, n, cumulative_wt, wt_max, rho, std::move(sample), allocator);
@@ -447,6 +449,7 @@ ebpps_sketch<T,A> ebpps_sketch<T,A>::deserialize(std::istream& is, const SerDe& 
   const uint8_t family = read<uint8_t>(is);
   const uint8_t flags = read<uint8_t>(is);
   const uint32_t k = read<uint32_t>(is);
+  if (!is.good()) throw std::runtime_error("error reading from std::istream");
 
   check_k(k);
   check_family_and_serialization_version(family, ser_ver);
@@ -461,10 +464,13 @@ ebpps_sketch<T,A> ebpps_sketch<T,A>::deserialize(std::istream& is, const SerDe& 
   const double cumulative_wt = read<double>(is);
   const double wt_max = read<double>(is);
   const double rho = read<double>(is);
+  if (!is.good()) throw std::runtime_error("error reading from std::istream");
+  check_state(cumulative_wt, wt_max, rho);
 
   auto sample = ebpps_sample<T,A>::deserialize(is, sd, allocator);
 
-  if (sample.has_partial_item() != bool(flags & HAS_PARTIAL_ITEM_MASK))
+  // floor(c) full items are held, never more than k (c itself may exceed k by a rounding error)
+  if (sample.has_partial_item() != bool(flags & HAS_PARTIAL_ITEM_MASK) || !(sample.get_c() < k + 1.0))
     throw std::runtime_error("sketch fails internal consistency check");
 
   return ebpps_sketch(k, n, cumulative_wt, wt_max, rho, std::move(sample), allocator);
@@ -476,6 +482,15 @@ inline uint32_t ebpps_sketch<T, A>::check_k(uint32_t k)
   if (k == 0 || k > MAX_K)
     throw std::invalid_argument("k must be strictly positive and less than " + std::to_string(MAX_K));
   return k;
+}
+
+// the running state of a non-empty sketch: 0 < wt_max <= cumulative_wt < inf, 0 < rho < inf
+template<typename T, typename A>
+void ebpps_sketch<T, A>::check_state(double cumulative_wt, double wt_max, double rho) {
+  if (!(cumulative_wt > 0.0) || std::isinf(cumulative_wt) || !(wt_max > 0.0) || !(wt_max <= cumulative_wt)
+      || !(rho > 0.0) || std::isinf(rho)) {
+    throw std::invalid_argument("Possible corruption: invalid cumulative weight, maximum weight or rho");
+  }
 }
 
 template<typename T, typename A>
